@@ -72,7 +72,7 @@ class Prop:
     id = "C34"
     level = "exploration"
     engine = "TH (controlled threads: baton passing, line-level pre-emption points, simulated locks/timers/clock)"
-    quick_runs = 8000
+    quick_runs = 25000
     thorough_runs = 300000
     quick_budget = 80.0
     chunk = 100
